@@ -68,6 +68,10 @@ def strategy(tier):
         if twin and r["n"] == 4:
             # X -> R R with R -> F0 F1 twice: the same two-body decay occurs at two nodes of a chain
             r = dict(r, twin=True)
+            # the interesting twin: spinful R (so that R_{+1} R_{-1} exists) below a parity-conserving top node
+            td0 = dict(r["topos"][0], pc=[True, True, True])
+            td0["res"] = [dict(rd, k=max(rd["k"], 1)) for rd in td0["res"]]
+            r["topos"] = [td0, *r["topos"][1:]]
             r["final"] = [dict(fd, m=max(fd["m"], 0.135) if fd["s2"] >= 2 else fd["m"]) for fd in r["final"]]
         return r
 
@@ -94,7 +98,18 @@ def fixed_cases(tier):
             "hel_init": 0, "hel_final": [0, 0, 0], "max_transitions": 64,
         },
         "all_pc": True, "parent_hel": False, "child_hel": True, "point_seed": 11,
-    }]
+    }] + [{
+        # X(2^-) -> R R, R(1^-) -> F0 F1 twice: the two daughters of the top node carry the same name and different
+        # helicities; R_{+1} R_{-1} and R_{-1} R_{+1} are parity partners with eta = -1
+        "reaction": {
+            "formalism": "helicity", "n": 4, "mu": 0.3, "final": [fin(0, -1, 0.135), fin(0, -1, 0.494), fin(0, -1, 0.135), fin(0, -1, 0.494)],
+            "ident": [], "twin": True, "initial": {"k": 2, "P": -1, "eps": 0.3, "width": 0.0},
+            "topos": [{"idx": 1, "perm": [0, 1, 2, 3], "res": [{"k": 1, "P": -1, "eps": 0.1, "width": 0.1}] * 2,
+                       "pc": [True, True, True]}],
+            "hel_init": 0, "hel_final": [0, 0, 0, 0], "max_transitions": 96,
+        },
+        "all_pc": True, "parent_hel": ph, "child_hel": True, "point_seed": 12,
+    } for ph in (False, True)]
 
 
 def _eta(t, node) -> int:
